@@ -109,6 +109,30 @@ CLAIMED = {
                  "Not decided: idempotence/denotation-preservation of Filename::standardize/make_canonical (string algorithms)."),
         "note": "Trusted: clang 14 AST/CFG; Filename::exists/resolve_filename/make_canonical; DSearchPath keeps insertion order.",
     },
+    "C05": {
+        "level": "other",
+        "design_ref": "DESIGN.md section 3, C05 (R05.1-R05.3)",
+        "technique": "table agreement over resolved enumerators/members: accessor-flag, builder flag translation, text-dump labels",
+        "text": ("Decides only the role-flag plumbing of C05: every flag accessor tests the enumerator it is named after (and the flag words "
+                 "have distinct single bits); every builder statement that translates a C++ fact into a stored flag pairs same-role "
+                 "enumerators (constructor/destructor/virtual/operator-typecast/unary-op/class/struct/union/...) or the member named in "
+                 "ivf/spec/roles.json (this on front(), optional, named, has-return with the right polarity, caller-manages, extension); "
+                 "every text-dump label is the flag's role name.  Not decided: scoped names, parameter lists and types, comment "
+                 "attachment, property/sequence resolution - these depend on run-time data."),
+        "note": "Trusted: clang 14 AST; the repo's naming convention (enumerator names carry the role); hand-written roles.json.",
+    },
+    "C10": {
+        "level": "other",
+        "design_ref": "DESIGN.md section 3, C10 (R10.1, R10.2)",
+        "technique": "feature matrix of sibling predicates on the CFG vs a spec transcribed from the C++ standard; gated reachability of synthesis sinks",
+        "text": ("Decides the rule skeleton of C10: each of CPPStructType's is_{default,copy,move}_constructible / is_{copy,move}_assignable / "
+                 "is_destructible (CPPVisibility) returns false on exactly the dependencies its C++ rule names (user-declared member "
+                 "inaccessible or deleted, abstract class, other constructors declared, user-declared move operations, destructor for copy "
+                 "construction, every base with V_protected, every non-static member), and the builder synthesises the implicit default/"
+                 "copy constructor and destructor only behind `none declared` and the matching predicate and never registers a constructor "
+                 "of an abstract class.  Not decided: agreement with the compiler on every hierarchy, is_abstract's virtual-function logic."),
+        "note": "Trusted: clang 14 AST/CFG; ivf/spec/special_members.json; the get_*() lookups of user-declared members.",
+    },
 }
 
 NOT_APPLICABLE = {
